@@ -93,6 +93,8 @@ fn one(root: &std::path::Path, target: &str, w: usize, runs: u64, seed: u64, see
         .arg(format!("-runs={}", runs))
         .arg(format!("-seed={}", seed))
         .arg("-len_control=0")
+        .arg("-report_slow_units=300")
+        .arg("-timeout=600")
         .arg(format!("-max_len={}", max_len))
         .arg(format!("-artifact_prefix={}/", artifacts.display()))
         .current_dir(root.join("harness/fuzz"))
@@ -107,17 +109,25 @@ fn one(root: &std::path::Path, target: &str, w: usize, runs: u64, seed: u64, see
         .lines()
         .rev()
         .find_map(|l| l.strip_prefix("Done ").and_then(|r| r.split(' ').next()).and_then(|n| n.parse::<u64>().ok()));
+    // libFuzzer also drops slow-unit-*, oom-*, timeout-* and leak-* files next to crash-*: only a crash is
+    // a verdict of the oracle inside the target; the others speak about the machine, not the property
     let mut crash = None;
+    let mut other = vec![];
     if let Ok(rd) = std::fs::read_dir(&artifacts) {
         for e in rd.flatten() {
-            if let Ok(b) = std::fs::read(e.path()) {
-                crash = Some(b);
-                break;
+            let name = e.file_name().to_string_lossy().to_string();
+            if name.starts_with("crash-") {
+                if crash.is_none() {
+                    crash = std::fs::read(e.path()).ok();
+                }
+            } else if !name.starts_with("slow-unit-") {
+                other.push(name);
             }
         }
     }
     let tail: String = text.lines().rev().take(6).collect::<Vec<_>>().into_iter().rev().collect::<Vec<_>>().join(" | ");
     let _ = std::fs::remove_dir_all(&corpus);
     let _ = std::fs::remove_dir_all(&artifacts);
-    One { done, crash, ok: out.status.success(), tail }
+    let tail = if other.is_empty() { tail } else { format!("{} [artifacts: {}]", tail, other.join(", ")) };
+    One { done, crash, ok: out.status.success() && other.is_empty(), tail }
 }
